@@ -77,6 +77,18 @@ theorem source_meets_spec (cfg : Cfg) (env : Env) (ops : List Op) :
     ∃ o, execSource cfg env ops (flowOf middlewareFlow "Validator.Middleware") = some o ∧ MeetsT o (spec cfg env ops) :=
   ⟨_, middleware_source_is_model cfg env ops, middleware_meets_spec_total cfg env ops⟩
 
+/-- **source_history_meets_spec.** A history of requests through ONE middleware instance, each served by running the
+source's statement list (the closure starts from its parameters alone: `Validator` keeps nothing between requests —
+`validator_keeps_no_state`, and the program creates its wrapper itself, `newStrict` / `newWarn`): the list of outcomes
+is the model's `serveSeq`, and every request of the history is answered as the property prescribes. -/
+theorem source_history_meets_spec (cfg : Cfg) (reqs : List Req) :
+    reqs.map (fun r => exec cfg r.env r.ops middlewareProgram) = serveSeq cfg reqs ∧
+    MeetsSeq cfg reqs (reqs.map (fun r => exec cfg r.env r.ops middlewareProgram)) := by
+  have h : reqs.map (fun r => exec cfg r.env r.ops middlewareProgram) = serveSeq cfg reqs := by
+    rw [serveSeq_pointwise]
+    exact List.map_congr_left (fun r _ => middleware_program_is_model cfg r.env r.ops)
+  exact ⟨h, h ▸ every_request_of_a_history_meets_spec cfg reqs⟩
+
 set_option linter.unusedSimpArgs false in
 /-- the interpreter never reaches the statement it has no meaning for (the log call under a failed client write) -/
 theorem source_never_stuck (cfg : Cfg) (env : Env) (ops : List Op) :
